@@ -1,6 +1,7 @@
 package participle_test
 
 import (
+	"strconv"
 	"encoding/json"
 	"fmt"
 	"os"
@@ -43,6 +44,7 @@ func (r *xResult) emit(t *testing.T) {
 type ebnfCounts struct {
 	literals, names int
 	ops             map[string]int
+	texts           map[string]int // literal texts as printed (quoted)
 }
 
 func countExpr(e *ebnf.Expression, c *ebnfCounts) {
@@ -59,6 +61,9 @@ func countExpr(e *ebnf.Expression, c *ebnfCounts) {
 				c.names++
 			case term.Literal != "":
 				c.literals++
+				if c.texts != nil {
+					c.texts[term.Literal]++
+				}
 			case term.Group != nil:
 				switch term.Group.Lookahead {
 				case ebnf.LookaheadAssertionPositive:
@@ -108,10 +113,17 @@ func TestVerif_C14_EBNF(t *testing.T) {
 			return
 		}
 		defined := map[string]int{}
-		c := &ebnfCounts{ops: map[string]int{}}
+		c := &ebnfCounts{ops: map[string]int{}, texts: map[string]int{}}
 		for _, p := range tree.Productions {
 			defined[p.Production]++
 			countExpr(p.Expression, c)
+		}
+		// the literals are the grammar's own, character for character
+		for txt := range c.texts {
+			u, uerr := strconv.Unquote(txt)
+			if uerr != nil || (u != "x" && u != "a\"  \\b%d\\") {
+				res.violate("literal %s in the printed grammar is not one of the grammar's literals (%q, %q): %s: %q", txt, "x", "a\"  \\b%d\\", g.Desc, g.EBNF)
+			}
 		}
 		for n, k := range defined {
 			if k != 1 {
